@@ -187,6 +187,7 @@ type c04TermBuilder struct {
 	memBusy   map[c04MemKey]bool
 	memBusyF  map[*c04Frame2]map[c04MemKey]bool
 	closureOf map[c04FrameKey]c04ClosureSite
+	muUsed    map[*c04Frame2]map[ssa.Value]string
 	// Opaque callees are not inlined: their calls become "call" nodes
 	// (Name = position-free function name, Args = argument terms).
 	Opaque func(*ssa.Function) bool
@@ -218,10 +219,27 @@ func (tb *c04TermBuilder) Term(fr *c04Frame2, v ssa.Value) *c04T {
 		tb.busy[fr] = map[ssa.Value]bool{}
 	}
 	if tb.busy[fr][v] {
+		// an instant that a loop inside the code under analysis carries round (a walk "for cond
+		// { t = t.Add(d) }"): the variable of a recursive term mu X. choice(entry, step(X)), so that
+		// the steps of the walk stay visible; other loop-carried values are not modelled
+		if ph, ok := v.(*ssa.Phi); ok && c04IsTimeType(ph.Type()) {
+			if tb.muUsed == nil {
+				tb.muUsed = map[*c04Frame2]map[ssa.Value]string{}
+			}
+			if tb.muUsed[fr] == nil {
+				tb.muUsed[fr] = map[ssa.Value]string{}
+			}
+			id := fmt.Sprintf("%s.%s@%d", fr.fn.Name(), ph.Name(), fr.depth)
+			tb.muUsed[fr][v] = id
+			return &c04T{Op: "muvar", Name: id, Src: v}
+		}
 		return c04Unknown("loop-carried value")
 	}
 	tb.busy[fr][v] = true
 	t := tb.build(fr, v)
+	if id, ok := tb.muUsed[fr][v]; ok {
+		t = &c04T{Op: "mu", Name: id, Args: []*c04T{t}}
+	}
 	if t.Src == nil {
 		t.Src = v
 	}
@@ -1234,9 +1252,30 @@ func c04LocalCellOnly(al *ssa.Alloc) bool {
 func (tb *c04TermBuilder) MemAt(fr *c04Frame2, base ssa.Value, field int, b *ssa.BasicBlock, idx int) *c04T {
 	t := tb.memAt(fr, base, field, b, idx)
 	if t.Op == "cycle" {
+		// an instant that a loop carries round in memory: the variable of the walk (see Term)
+		if c04CellIsTime(base, field) {
+			return &c04T{Op: "muvar", Name: "mem:" + base.Name()}
+		}
 		return c04Unknown("loop-carried value")
 	}
 	return t
+}
+
+// c04CellIsTime: the variable (field >= 0: that field of the struct variable) holds a time.Time.
+func c04CellIsTime(base ssa.Value, field int) bool {
+	pt, ok := base.Type().Underlying().(*types.Pointer)
+	if !ok {
+		return false
+	}
+	t := pt.Elem()
+	if field >= 0 {
+		st, ok := t.Underlying().(*types.Struct)
+		if !ok || field >= st.NumFields() {
+			return false
+		}
+		t = st.Field(field).Type()
+	}
+	return c04IsTimeType(t)
 }
 
 // memAt is MemAt; a path that only leads back to the point being computed
